@@ -5,7 +5,7 @@ Statement (full strength), over the scanner model M1 with dialects `xgo` (scanne
 and `go` (go/scanner of the toolchain, Go 1.23):
 
     theorem xgo_eq_go (U : UCls) (src : Array UInt8) (comments noSemis : Bool) :
-        goLexemesOnly U src = true →
+        goLexemesOnly U comments noSemis src = true →
         agree16 (scan ⟨.xgo, comments, noSemis, U⟩ src) (scan ⟨.go, comments, noSemis, U⟩ src) = true
 
 (`agree16`: both runs finish; same tokens — offset, kind, literal, including inserted semicolons
@@ -114,29 +114,29 @@ def srcSemiOrder : Array UInt8 := #[0x78, 0x20, 0x2F, 0x2F, 0x20, 0x63, 0x0A, 0x
 outside the domain. -/
 theorem C16_bang_newline_differs :
     agree16 (scan (cfg .xgo true) srcBang) (scan (cfg .go true) srcBang) = false ∧
-    goLexemesOnly noU srcBang = false := by decide +kernel
+    goLexemesOnly noU true false srcBang = false := by decide +kernel
 
 theorem C16_ellipsis_newline_differs :
     agree16 (scan (cfg .xgo true) srcEllipsis) (scan (cfg .go true) srcEllipsis) = false ∧
-    goLexemesOnly noU srcEllipsis = false := by decide +kernel
+    goLexemesOnly noU true false srcEllipsis = false := by decide +kernel
 
 /-- `x // c⏎y`: XGo returns `;` before the comment (at the comment), go/scanner 1.23 after it
 (at the newline) — with comments on and, by offset, also with comments off -/
 theorem C16_semicolon_order_differs :
     agree16 (scan (cfg .xgo true) srcSemiOrder) (scan (cfg .go true) srcSemiOrder) = false ∧
     agree16 (scan (cfg .xgo false) srcSemiOrder) (scan (cfg .go false) srcSemiOrder) = false ∧
-    goLexemesOnly noU srcSemiOrder = false := by decide +kernel
+    goLexemesOnly noU true false srcSemiOrder = false ∧ goLexemesOnly noU false false srcSemiOrder = false := by decide +kernel
 
 /-! ## The domain is not trivial: members with comments, literals of every kind, errors -/
 
-/-- `x := 0x1F + 1.5e3i /* c */ * 'a' // t` + newline + `"s\q" != y` -/
+/-- `x := 0x1F + /* c */ 1.5e3i * 'a' + // t` + newline + `"s\q" != !y` -/
 def srcIn : Array UInt8 :=
-  #[0x78, 0x20, 0x3A, 0x3D, 0x20, 0x30, 0x78, 0x31, 0x46, 0x20, 0x2B, 0x20, 0x31, 0x2E, 0x35, 0x65, 0x33, 0x69, 0x20,
-    0x2F, 0x2A, 0x20, 0x63, 0x20, 0x2A, 0x2F, 0x20, 0x2A, 0x20, 0x27, 0x61, 0x27, 0x20, 0x2B, 0x0A,
-    0x22, 0x73, 0x5C, 0x71, 0x22, 0x20, 0x21, 0x3D, 0x20, 0x79]
+  #[0x78, 0x20, 0x3A, 0x3D, 0x20, 0x30, 0x78, 0x31, 0x46, 0x20, 0x2B, 0x20, 0x2F, 0x2A, 0x20, 0x63, 0x20, 0x2A, 0x2F, 0x20,
+    0x31, 0x2E, 0x35, 0x65, 0x33, 0x69, 0x20, 0x2A, 0x20, 0x27, 0x61, 0x27, 0x20, 0x2B, 0x20, 0x2F, 0x2F, 0x20, 0x74, 0x0A,
+    0x22, 0x73, 0x5C, 0x71, 0x22, 0x20, 0x21, 0x3D, 0x20, 0x21, 0x79]
 
 theorem C16_domain_examples :
-    goLexemesOnly noU srcIn = true ∧
+    goLexemesOnly noU true false srcIn = true ∧ goLexemesOnly noU false false srcIn = true ∧
     agree16 (scan (cfg .xgo true) srcIn) (scan (cfg .go true) srcIn) = true ∧
     agree16 (scan (cfg .xgo false) srcIn) (scan (cfg .go false) srcIn) = true ∧
     (scan (cfg .go true) srcIn).errs ≠ [] ∧ 10 ≤ (scan (cfg .go true) srcIn).toks.length := by
